@@ -139,7 +139,7 @@ func runW(pl WPlan) (res vfx.Result) {
 			continue
 		}
 		if seen && e.Kind == "leave" && e.T < accepted+100*time.Millisecond {
-			after = append(after, fmt.Sprintf("leave %v after the refutation was accepted", (e.T - accepted).Round(10*time.Microsecond)))
+			after = append(after, fmt.Sprintf("leave %v after the refutation was accepted", (e.T-accepted).Round(10*time.Microsecond)))
 		}
 	}
 	if len(after) > 0 {
